@@ -2,6 +2,8 @@
 
 package decimal
 
+import "math/big"
+
 // C05 (decidable part): special values, panics, precision/mode preservation,
 // operand unchanged and the exponent bookkeeping around the Newton iteration.
 //
@@ -72,5 +74,104 @@ func H_C05_alias() {
 		}
 	}
 	vAssert("C05.alias", ok)
+	vReach("end")
+}
+
+// vStub_sqrtTruncate: companion of vStub_sqrtInverse for the jobs that replace
+// the iteration (the exact-floor search only terminates from a real approximation).
+func vStub_sqrtTruncate(z, x *Decimal) {}
+
+// sqCmp compares T^2 * 10^e1 with X * 10^e2.
+func sqCmp(T sInt, e1 int, X sInt, e2 int) (lt, eq bool) {
+	L, R := sMul(T, T), X
+	if e1 >= e2 {
+		L = sMulPow10(L, e1-e2)
+	} else {
+		R = sMulPow10(R, e2-e1)
+	}
+	return sLt(L, R), sEq(L, R)
+}
+
+// H_C05_root: the numeric half of C05 on the REAL Sqrt (float64 seed, Newton
+// iteration, final rounding; no stub). The operand is concrete - the iteration
+// starts from math.Sqrt of a float64, which the executor interprets only
+// concretely - and is taken from a family built around the hard cases: perfect
+// squares, their neighbours, exact midpoints, odd and even exponents. The
+// rounding mode is symbolic. The oracle does not compute a root: r (p digits)
+// is the correctly rounded root of x iff, with prev/next the neighbouring
+// p-digit values,
+//
+//	r^2 == x, or
+//	r^2 < x < next^2  and the mode rounds down here (directed down; nearest and x below/at the midpoint per tie rule), or
+//	prev^2 < x < r^2  and the mode rounds up here,
+//
+// all decided on integers (squares compared after scaling to a common exponent).
+func H_C05_root() {
+	k, p := vCfg("k"), vCfg("p")
+	// x = (k^2 + delta) * 10^xe, or the exact midpoint (k+1/2)^2 = (2k+1)^2 * 25 * 10^(xe-2)
+	K := new(big.Int).SetInt64(int64(k))
+	if vCfgOr("mid", 0) == 1 {
+		K.Mul(K, big.NewInt(2)).Add(K, big.NewInt(1))
+		K.Mul(K, K).Mul(K, big.NewInt(25))
+	} else {
+		if vCfgOr("sq", 1) == 1 {
+			K.Mul(K, K)
+		}
+		K.Add(K, big.NewInt(int64(vCfgOr("delta", 0))))
+	}
+	x := new(Decimal).SetInt(K) // precision 0: exact
+	xe := vCfgOr("xe", 0)
+	if vCfgOr("mid", 0) == 1 {
+		xe -= 2
+	}
+	x.SetMantExp(x, xe)
+	vAssert("C05.setup", vAnd(x.form == finite, x.acc == Exact))
+	xs := snap(x)
+	z := new(Decimal).SetPrec(uint(p))
+	z.mode = RoundingMode(vI64("z.mode", 0, 5))
+	mode := z.mode
+	c := vCatch(func() { z.Sqrt(x) })
+	vAssert("C04.nopanic", c == 0)
+	if c != 0 {
+		return
+	}
+	vAssert("C09.prec", z.prec == uint32(p))
+	vAssert("C09.mode", z.mode == mode)
+	vAssert("C09.operand", unchanged(x, xs))
+	vAssert("C08.inv", invOK(z))
+	vAssert("C05.sign", vAnd(z.form == finite, !z.neg))
+	if z.form != finite {
+		return
+	}
+	n := len(z.mant)
+	zexp := int(vConcI(int64(z.exp)))
+	R := sDivPow10(sFromWords(z.mant), _DW*n-p) // p-digit integer mantissa (invOK: nothing below)
+	X4 := sMul(sFromWords(x.mant), sU(4))       // 4x = X4 * 10^e2
+	e2 := int(x.exp) - _DW*len(x.mant)
+	// r = T/2 * 10^(zexp-p-1) with T = 20 R, so r^2 ? x  <=>  T^2 * 10^e1 ? 4x
+	e1 := 2 * (zexp - p - 1)
+	T := sMul(R, sU(20))
+	isPow := sEq(R, sPow10(p-1))
+	next := sAdd(T, sU(20))
+	prev := sIte(isPow, sSub(T, sU(2)), sSub(T, sU(20)))
+	midUp := sAdd(T, sU(10))
+	midDn := sIte(isPow, sSub(T, sU(1)), sSub(T, sU(10)))
+	floorOddDn := vOr(isPow, sOdd(sSub(R, sU(1)))) // parity of prev's mantissa
+	lt0, eq0 := sqCmp(T, e1, X4, e2)
+	ltN, eqN := sqCmp(next, e1, X4, e2)
+	ltP, _ := sqCmp(prev, e1, X4, e2)
+	ltMu, eqMu := sqCmp(midUp, e1, X4, e2)
+	ltMd, eqMd := sqCmp(midDn, e1, X4, e2)
+	gt0 := vAnd(!lt0, !eq0)
+	// faithful: x lies strictly between the squares of r's neighbours
+	vAssert("C05.root.faithful", vOr(eq0, vOr(vAnd(lt0, vAnd(!ltN, !eqN)), vAnd(gt0, ltP))))
+	down := vOr(mode == ToZero, mode == ToNegativeInf)
+	up := vOr(mode == AwayFromZero, mode == ToPositiveInf)
+	even, away := mode == ToNearestEven, mode == ToNearestAway
+	// r is the floor: fine if the mode rounds down here
+	okFloor := vOr(down, vAnd(vOr(even, away), vOr(vAnd(!ltMu, !eqMu), vAnd(eqMu, vAnd(even, !sOdd(R))))))
+	// r is the ceiling: fine if the mode rounds up here
+	okCeil := vOr(up, vAnd(vOr(even, away), vOr(ltMd, vAnd(eqMd, vOr(away, floorOddDn)))))
+	vAssert("C05.root.rounded", vOr(eq0, vOr(vAnd(lt0, okFloor), vAnd(gt0, okCeil))))
 	vReach("end")
 }
